@@ -311,6 +311,18 @@ where
             burn::tensor::Distribution::Normal(0., 1.),
             &B::Device::default(),
         );
+        #[cfg(feature = "verif-hooks")]
+        let momentum_0 = crate::verif::hmc_momenta::<B>(momentum_0);
+        #[cfg(feature = "verif-hooks")]
+        if crate::verif::enabled() {
+            let mut f = crate::verif::flat(&self.positions);
+            f.extend(crate::verif::flat(&momentum_0));
+            crate::verif::emit(
+                "hmc_begin",
+                &[n_chains as i64, dim as i64, self.n_leapfrog as i64],
+                &f,
+            );
+        }
 
         // Current log probability: shape [n_chains]
         // Detach pos to ensure it's AD-enabled for the gradient computation.
@@ -338,6 +350,13 @@ where
         // 2) Run the leapfrog integrator.
         let (proposed_positions, proposed_momenta, logp_proposed) =
             self.leapfrog(self.positions.clone(), momentum_0);
+        #[cfg(feature = "verif-hooks")]
+        if crate::verif::enabled() {
+            let mut f = crate::verif::flat(&proposed_positions);
+            f.extend(crate::verif::flat(&proposed_momenta));
+            f.extend(crate::verif::flat(&logp_proposed));
+            crate::verif::emit("hmc_prop", &[], &f);
+        }
 
         // Compute proposed kinetic energy.
         let ke_proposed = proposed_momenta
@@ -347,6 +366,12 @@ where
             .mul_scalar(T::from(0.5).unwrap());
 
         let h_proposed = -logp_proposed + ke_proposed;
+        #[cfg(feature = "verif-hooks")]
+        if crate::verif::enabled() {
+            let mut f = crate::verif::flat(&h_current);
+            f.extend(crate::verif::flat(&h_proposed));
+            crate::verif::emit("hmc_h", &[], &f);
+        }
 
         // 3) Accept/Reject each proposal.
         let accept_logp = h_current.sub(h_proposed);
@@ -361,6 +386,12 @@ where
             burn::tensor::Distribution::Default,
             &B::Device::default(),
         );
+        #[cfg(feature = "verif-hooks")]
+        let uniform = crate::verif::hmc_uniforms::<B>(uniform);
+        #[cfg(feature = "verif-hooks")]
+        if crate::verif::enabled() {
+            crate::verif::emit("hmc_u", &[], &crate::verif::flat(&uniform));
+        }
 
         // Accept the proposal if accept_logp >= ln(u).
         let ln_u = uniform.log(); // shape [n_chains]
@@ -374,6 +405,26 @@ where
                 .mask_where(accept_mask_big, proposed_positions)
                 .detach()
         });
+        #[cfg(feature = "verif-hooks")]
+        if crate::verif::enabled() {
+            crate::verif::emit("hmc_end", &[], &crate::verif::flat(&self.positions));
+        }
+    }
+
+    /// Verification hook: runs the private integrator from `(pos, mom)` exactly as `step` does
+    /// (gradient term at `pos` first), returning `(positions, momenta, log-densities)`.
+    #[cfg(feature = "verif-hooks")]
+    pub fn verif_leapfrog(
+        &mut self,
+        pos: Tensor<B, 2>,
+        mom: Tensor<B, 2>,
+    ) -> (Tensor<B, 2>, Tensor<B, 2>, Tensor<B, 1>) {
+        let p = pos.clone().detach().require_grad();
+        let logp = self.target.unnorm_logp_batch(p.clone());
+        let grads = p.grad(&logp.backward()).unwrap();
+        self.last_grad_summands =
+            Tensor::<B, 2>::from_inner(grads.mul_scalar(self.step_size * T::from(0.5).unwrap()));
+        self.leapfrog(pos, mom)
     }
 
     /// Perform the leapfrog integrator steps in a batched manner.
@@ -423,6 +474,12 @@ where
             mom.inplace(|_mom| _mom.add(grad_summands.clone()));
 
             self.last_grad_summands = grad_summands;
+            #[cfg(feature = "verif-hooks")]
+            if crate::verif::enabled() {
+                let mut f = crate::verif::flat(&pos);
+                f.extend(crate::verif::flat(&mom));
+                crate::verif::emit("hmc_lf", &[_step_i as i64], &f);
+            }
         }
 
         // Compute final log probability at the updated positions.
